@@ -1,4 +1,4 @@
 From Coq Require Import ExtrOcamlBasic.
 From Draco Require Import Base.DriverSupport Model.Dedup Model.Cleanup Model.Strips.
 Extraction "m.ml" ds_api dedup_values dedup_attribute_values dedup_point_ids cleanup soup_build pc_build
-  remove_degenerate_faces remove_duplicate_faces remove_unused_attributes strips_restart strips_degenerate strips_walks_ok.
+  remove_degenerate_faces remove_duplicate_faces remove_unused_attributes strips_restart strips_degenerate strips_walks_ok opp_wf_b.
